@@ -70,6 +70,19 @@ static std::string rx(const Args& a)
     if (app && !codec2) codec2 = ::codec2_create(CODEC2_MODE_3200);
     if (app) display_lsf = true;
     if (a.at(9) == 2) app = false;
+    // mode 3: a SECOND demodulator instance lives in the same process and is fed, interleaved sample by sample, a looped copy of the
+    // transmission's last frames + EOT (so it keeps acquiring, receiving an end of transmission and unlocking) - the function-local
+    // statics of M17Demodulator are shared by all instances; the first instance's reception must not depend on the second's.
+    bool dual = a.at(9) == 3;
+    if (dual) app = false;
+    std::unique_ptr<M17Demodulator<float>> other;
+    std::vector<float> loopA; size_t ia = 0;
+    if (dual) {
+        other.reset(new M17Demodulator<float>([](const M17FrameDecoder::output_buffer_t&, int) { return true; }));
+        size_t tail = std::min<size_t>(s.size(), size_t(17000) + size_t(seed % 1920));
+        for (size_t i = s.size() - tail; i < s.size(); ++i) loopA.push_back(float(s[i]));
+        for (size_t i = 0; i < size_t(3000) + size_t(seed % 977); ++i) loopA.push_back(0.0f);
+    }
     std::unique_ptr<M17Demodulator<float>> demod(app ? new M17Demodulator<float>(handle_frame) : new M17Demodulator<float>(cb));
     if (app) demod->diagnostics(diagnostic_callback<float>);
     long long maxsi = 0, maxfi = 0, n = 0, dcdn = 0, dcdfirst = -1;
@@ -77,6 +90,7 @@ static std::string rx(const Args& a)
     std::string trace;
     if (tracing) { trace.reserve(size_t(40) * (s.size() + size_t(leadn) + 4000)); app = false; }
     auto feed = [&](double x) {
+        if (dual && !loopA.empty()) { (*other)(loopA[ia]); if (++ia == loopA.size()) ia = 0; }
         (*demod)(float(x));
         ++n;
         if (tracing && n >= 1920) {
@@ -188,6 +202,32 @@ static std::string app_packets(const Args& a)
     r.push_back((long long)current_packet.size());
     return join(r);
 }
+// ax25 bytes...: mobilinkd::ax25_frame on an arbitrary byte string -> "D dest | S src | R n | rep ... | T type | P pid | I info" (bytes as numbers)
+static std::string ax25_op(const Args& a)
+{
+    std::string f; for (auto x : a) f.push_back(char(uint8_t(x)));
+    mobilinkd::ax25_frame fr(f);
+    auto bytes = [](const std::string& s) { std::string r; for (unsigned char c : s) { r += ' '; r += std::to_string(int(c)); } return r; };
+    std::string out = "D" + bytes(fr.destination()) + " | S" + bytes(fr.source()) + " | R " + std::to_string(fr.repeaters().size());
+    for (auto& r : fr.repeaters()) out += " |" + bytes(r);
+    out += " | T " + std::to_string(int(fr.type())) + " | P " + (fr.pid() ? std::to_string(int(*fr.pid())) : std::string("-1")) + " | I" + bytes(fr.info());
+    return out;
+}
+
+// app_bert bytes(25 per frame)...: m17-demod's decode_bert handler on consecutive frames, from a reset validator -> "<sync> <errors> <bits>"
+static std::string app_bert(const Args& a)
+{
+    prbs.reset();
+    for (size_t k = 0; k + 25 <= a.size(); k += 25) {
+        mobilinkd::M17FrameDecoder::bert_buffer_t b{};
+        for (size_t i = 0; i < 25; ++i) b[i] = uint8_t(a[k + i]);
+        decode_bert(b);
+    }
+    std::string r = join({(long long)prbs.sync(), (long long)prbs.errors(), (long long)(prbs.sync() ? prbs.bits() : 0)});
+    prbs.reset();
+    return r;
+}
+
 static std::string app_call(const Args& a)
 {
     mobilinkd::LinkSetupFrame::encoded_call_t e{}; for (size_t i = 0; i < 6; ++i) e[i] = uint8_t(a.at(i));
@@ -245,6 +285,8 @@ static std::string handle(const std::string& op, const Args& a)
     if (op == "app_lsf") return app_lsf(a);
     if (op == "app_packets") return app_packets(a);
     if (op == "app_call") return app_call(a);
+    if (op == "app_bert") return app_bert(a);
+    if (op == "ax25") return ax25_op(a);
     return "bad-op";
 }
 
